@@ -5,9 +5,14 @@ import numpy as np
 import sympy as sym
 
 SPECIAL_FLOATS = [0.0, -0.0, 5e-324, 2.2250738585072014e-308, 1e300, -1e300, 1e-300, 1e16, 1e22, 0.1, 1 / 3,
-                  123456789.12345679, 1e-5, 1.5e-7, 2.5, -0.75, 1e15, 9007199254740993.0, 0.30000000000000004]
+                  123456789.12345679, 1e-5, 1.5e-7, 2.5, -0.75, 1e15, 9007199254740993.0, 0.30000000000000004] + \
+                 [__import__("math").pi * n for n in range(1, 17)] + [__import__("math").pi / n for n in range(2, 17)] + \
+                 [-__import__("math").pi / 13, -__import__("math").pi * 3]
 SPECIAL_INTS = [0, 1, -1, 7, 2 ** 31, -2 ** 31, 2 ** 63 - 1, -2 ** 63, 12345678901234]
-STRS = ["", "a", "hello world", "fock", "a#b", "x y  z", "1.5", "True", "{a}", "é", "name", "a,b", "[1]", "p0"]
+STRS = ["", "a", "hello world", "fock", "a#b", "x y  z", "1.5", "True", "{a}", "é", "name", "a,b", "[1]", "p0",
+        # characters Python's str.splitlines() treats as line boundaries but the grammar allows inside a string
+        # (only CR, LF and the quote are excluded), a tab, a backslash, an apostrophe, a percent sign
+        "a\x0bb", "a\x0cb", "a\x1cb", "a\x1db", "a\x1eb", "a\x85b", "a\u2028b", "a\u2029b", "a\tb", "a\\nb", "it's", "100%s"]
 GATES = ["Sgate", "BSgate", "Dgate", "Vac", "Rgate", "Xgate", "MeasureX", "Kgate", "G", "Measure", "names", "e"]
 KWS = ["a", "phi", "r", "select", "cutoff", "shots", "e", "alpha", "x", "N"]
 
@@ -59,6 +64,9 @@ def g_list(rng):
 def g_array(rng, maxdim=4):
     dt = rng.choice(["int", "float", "complex"])
     r, c = rng.randrange(1, maxdim + 1), rng.randrange(1, maxdim + 1)
+    if rng.random() < 0.03:
+        # more elements than NumPy prints in full by default (threshold 1000; line width 75)
+        r, c = rng.choice([(32, 32), (25, 41), (1, 1001), (1001, 1), (2, 501)])
     if dt == "int":
         data = [rng.choice(SPECIAL_INTS + [3, -4, 5]) for _ in range(r * c)]
     elif dt == "float":
